@@ -68,7 +68,7 @@ fn c14_case(c: &mut Case) -> Result<(), String> {
     let mut extend_aligned = 0u64;
     let mut extend_unaligned = 0u64;
     for _ in 0..nops {
-        let op = c.rng.below(17);
+        let op = c.rng.below(18);
         let what: String = match op {
             0 => {
                 x = DnaString::new();
@@ -168,6 +168,27 @@ fn c14_case(c: &mut Case) -> Result<(), String> {
                 x = x.reverse();
                 m.reverse();
                 "reverse".into()
+            }
+            16 => {
+                // hashed-N constructor: ACGT (either case) as given; other bytes become some valid base
+                let n = pick_len(c);
+                let txt: Vec<u8> = (0..n).map(|_| *c.rng.pick(b"ACGTacgtNn-")).collect();
+                let name: Vec<u8> = (0..c.rng.below(8)).map(|_| b'a' + c.rng.below(26) as u8).collect();
+                x = DnaString::from_acgt_bytes_hashn(&txt, &name);
+                m = Vec::with_capacity(n);
+                for (i, b) in txt.iter().enumerate() {
+                    let v = match b {
+                        b'A' | b'a' => 0,
+                        b'C' | b'c' => 1,
+                        b'G' | b'g' => 2,
+                        b'T' | b't' => 3,
+                        _ => {
+                            if i < x.len() { x.get(i).min(3) } else { 0 }
+                        }
+                    };
+                    m.push(v);
+                }
+                format!("from_acgt_bytes_hashn(len {})", n)
             }
             _ => {
                 x = x.clone();
@@ -447,6 +468,16 @@ fn c15_hamming(c: &mut Case) -> Result<(), String> {
             2 => c.rng.below(6),
             _ => c.rng.below(len + 1),
         };
+        if c.rng.chance(1, 5) {
+            // a contiguous range (often everything) differs at every position: saturates any
+            // narrow partial-sum trick in a block-wise popcount
+            let a0 = if c.rng.chance(1, 2) { 0 } else { c.rng.below(len) };
+            let b0 = if c.rng.chance(1, 2) { len } else { a0 + c.rng.below(len - a0 + 1) };
+            for p in a0..b0 {
+                mb[p] = if c.rng.chance(1, 2) { 3 - ma[p] } else { (ma[p] + 1 + c.rng.below(3) as u8) & 3 };
+            }
+            c.count("hamming_pairs_with_dense_mismatch_range", (b0 - a0 >= 256) as u64);
+        }
         for _ in 0..nmis {
             let p = match c.rng.below(6) {
                 0 => 0,
@@ -509,6 +540,7 @@ pub fn run_c15(ctx: &Ctx) {
         ctx.require("rc_views", 1000);
         ctx.require("hamming_pairs_len_ge_1024", 1000);
         ctx.require("hamming_pairs_both_rc", 500);
+        ctx.require("hamming_pairs_with_dense_mismatch_range", 500);
         ctx.require("long_debug_forms", 100);
     }
 }
